@@ -251,3 +251,134 @@ def std_distance(c):
         else:
             c.ensure('C02.std.distance.nonfinite_only_without_forward_root', c.decide(b == 0))
     c.ensure_frame('C02.std.distance.pure', before, c.snapshot(rays=rays), [])
+
+
+@contract('C02.StandardGeometry.surface_normal', [ST + ':StandardGeometry.surface_normal', ST + ':StandardGeometry.sag'],
+          ['C02', 'C06'], bundle=True)
+def std_normal(c):
+    geos = c.mod('optiland.geometries')
+    CoordinateSystem = c.mod('optiland.coordinate_system').CoordinateSystem
+    R = c.real('R', -50, 50, nonzero=True)
+    k = c.real('k', -3, 2)
+    g = geos.StandardGeometry(CoordinateSystem(), R, k)
+    x, y = c.real('x', -3, 3), c.real('y', -3, 3)
+    c.require(1 - (1 + k) * (x * x + y * y) / (R * R) > 0)      # inside the domain of the sag sheet
+    z = c.val(g.sag(c.arr(x), c.arr(y)))
+    F = x * x + y * y + (1 + k) * z * z - 2 * R * z
+    c.ensure_eq('C02.std.sag.on_quadric', F, 0)
+    rays = mk_rays(c, (x, y, z), (0.0, 0.0, 1.0))
+    before = c.snapshot(rays=rays)
+    n = tuple(c.val(v) for v in g.surface_normal(rays))
+    c.ensure_eq('C02.std.normal.unit', norm2(n), 1)
+    grad = (2 * x, 2 * y, 2 * (1 + k) * z - 2 * R)
+    cr = cross(n, grad)
+    for i, ax in enumerate('xyz'):
+        c.ensure_eq('C02.std.normal.parallel_to_gradient_' + ax, cr[i], 0)
+    c.ensure_frame('C02.std.normal.pure', before, c.snapshot(rays=rays), [])
+
+
+@contract('C02.RealRays.propagate', [RR + ':RealRays.propagate'], ['C02', 'C16'], bundle=True)
+def propagate(c):
+    p = free_point(c)
+    d = c.unit3('L', 'M', 'N')
+    t = c.real('t', -5, 30)
+    rays = mk_rays(c, p, d)
+    rays.propagate(c.arr(t))
+    p1, d1 = pos_of(c, rays), dir_of(c, rays)
+    for i in range(3):
+        c.ensure_eq('C02.propagate.position', p1[i], p[i] + t * d[i])
+        c.ensure_eq('C02.propagate.direction_unchanged', d1[i], d[i])
+    # geometric length of the segment is |t| because the direction is a unit vector
+    seg = tuple(p1[i] - p[i] for i in range(3))
+    c.ensure_eq('C02.propagate.segment_length_squared', norm2(seg), t * t)
+    c.ensure_eq('C02.propagate.no_medium_no_attenuation', c.val(rays.i), 1)
+
+
+# ------------------------------------------------------------------------------------------
+# Surface._trace_real: orchestration against the *abstract* geometry contract
+#   distance(rays) -> t  (local frame),  surface_normal(rays) -> unit n at the hit point
+# ------------------------------------------------------------------------------------------
+SS = 'optiland/surfaces/standard_surface.py'
+
+
+def _abstract_geometry(c, cs, t, n):
+    BaseGeometry = c.mod('optiland.geometries.base').BaseGeometry
+
+    class AbstractGeometry(BaseGeometry):       # any geometry satisfying the abstract contract
+        def __init__(self):
+            super().__init__(cs)
+            self.calls = []
+
+        def sag(self, x=0, y=0):
+            raise AssertionError('not used by _trace_real')
+
+        def distance(self, rays):
+            self.calls.append(('distance', pos_of(c, rays), dir_of(c, rays)))
+            return c.arr(t)
+
+        def surface_normal(self, rays):
+            self.calls.append(('normal', pos_of(c, rays)))
+            return c.arr(n[0]), c.arr(n[1]), c.arr(n[2])
+    return AbstractGeometry()
+
+
+def _trace_real_contract(mask, reflective):
+    @contract('C02.Surface._trace_real.%s.%s' % (mask or 'untilted', 'mirror' if reflective else 'refract'),
+              [SS + ':Surface._trace_real', SS + ':Surface._interact', SS + ':Surface._record', SS + ':Surface.trace'],
+              ['C02', 'C16'], bundle=True, max_paths=64)
+    def tr(c):
+        surfs = c.mod('optiland.surfaces')
+        mats = c.mod('optiland.materials')
+        cs = _cs(c, mask)
+        t = c.real('t', -5.0, 20.0)
+        n = c.unit3('nx', 'ny', 'nz')
+        n1 = c.real('n1', 1.0, 2.5, positive=True)
+        n2 = c.real('n2', 1.0, 2.5, positive=True)
+        geo = _abstract_geometry(c, cs, t, n)
+        surf = surfs.Surface(geo, mats.IdealMaterial(n1, 0.0), mats.IdealMaterial(n2, 0.0), is_reflective=reflective)
+        p = free_point(c)
+        d = c.unit3('L', 'M', 'N')
+        opd0 = c.real('opd0', 0, 50)
+        # local incoming state, computed by the (separately verified) localize
+        probe = mk_rays(c, p, d)
+        cs.localize(probe)
+        pl, dl = pos_of(c, probe), dir_of(c, probe)
+        d0 = dot(dl, n)
+        c.require(d0 != 0)
+        if not reflective:
+            c.require(1 - (n1 / n2) ** 2 * (1 - d0 * d0) > 0)
+        rays = mk_rays(c, p, d)
+        rays.opd = c.arr(opd0)
+        out = surf.trace(rays)
+        c.ensure('C02.trace_real.returns_same_bundle', c.same(out, rays))
+        # geometry was asked in the local frame: distance at the localized state, normal at the hit point
+        hit = tuple(pl[i] + t * dl[i] for i in range(3))
+        c.ensure('C02.trace_real.calls', [x[0] for x in geo.calls] == ['distance', 'normal'])
+        for i in range(3):
+            c.ensure_eq('C02.trace_real.distance_asked_in_local_frame', geo.calls[0][1][i], pl[i])
+            c.ensure_eq('C02.trace_real.distance_asked_in_local_frame', geo.calls[0][2][i], dl[i])
+            c.ensure_eq('C02.trace_real.normal_asked_at_hit_point', geo.calls[1][1][i], hit[i])
+        # the record is the global image of the local hit; compare in the local frame
+        rec = mk_rays(c, (c.val(surf.x), c.val(surf.y), c.val(surf.z)), (c.val(surf.L), c.val(surf.M), c.val(surf.N)))
+        cs.localize(rec)
+        rp, rd = pos_of(c, rec), dir_of(c, rec)
+        for i in range(3):
+            c.ensure_eq('C02.trace_real.recorded_point_is_local_hit', rp[i], hit[i])
+        c.ensure_eq('C02.trace_real.recorded_direction_unit', norm2(rd), 1)
+        if reflective:
+            for i in range(3):
+                c.ensure_eq('C02.trace_real.reflection_law_in_surface_frame', rd[i], dl[i] - 2 * d0 * n[i])
+        else:
+            a, b = cross(dl, n), cross(rd, n)
+            for i in range(3):
+                c.ensure_eq('C02.trace_real.snell_in_surface_frame', n1 * a[i], n2 * b[i])
+        # optical path: index in front of the surface times geometric length (|t|, unit direction)
+        c.ensure_eq('C02.trace_real.opd_adds_index_times_length', c.val(surf.opd), opd0 + n1 * c.abs(t))
+        c.ensure_eq('C02.trace_real.rays_left_in_global_frame', c.val(rays.x), c.val(surf.x))
+        c.ensure_eq('C02.trace_real.intensity_recorded', c.val(surf.intensity), c.val(rays.i))
+    return tr
+
+
+for _m in ('', 'x', 'y'):
+    for _r in (False, True):
+        _trace_real_contract(_m, _r)
